@@ -10,6 +10,7 @@ Exit 2: infrastructure problem (build, TLC crash, time-out) - never a verdict.
 import argparse
 import json
 import os
+import re
 import sys
 import time
 
@@ -420,6 +421,44 @@ def parse_scheds(out):
     return ss
 
 
+def _tla_defs(text, names):
+    out = {}
+    for n in names:
+        m = re.search(r'^%s(\([a-z, ]*\))? ==(.*?)(?=^\S|\Z)' % n, text, re.M | re.S)
+        out[n] = " ".join(m.group(2).split()) if m else None
+    return out
+
+
+def tlaps_stage(w, ev, module, label, sync=None):
+    """Unbounded argument: the theorems of a proof module are re-checked by tlapm on every run.  `sync` =
+    (model module, normaliser, names): the definitions the proof is about must be textually those of the
+    module TLC explores and the traces are validated against (a proof about a different protocol is exit 2)."""
+    import subprocess
+    if sync:
+        src, norm, names = sync
+        a = _tla_defs(norm(open(w.path(src)).read()), names)
+        b = _tla_defs(open(w.path(module)).read(), names)
+        bad = [n for n in names if a[n] is None or a[n] != b[n]]
+        if bad:
+            raise Infra("%s is out of sync with %s in the definitions %s" % (module, src, bad))
+    t0 = time.time()
+    r = subprocess.run(["timeout", "900", "tlapm", "--threads", str(vlib.NCPU), "--cleanfp", module], cwd=w.dir, capture_output=True, text=True)
+    out = r.stdout + r.stderr
+    m = re.search(r"All (\d+) obligations? proved", out)
+    ev.cov["runs"].append({"name": label, "kind": "tlaps_proof", "ok": bool(m), "obligations": int(m.group(1)) if m else 0,
+                           "wall_s": round(time.time() - t0, 1), "cmd": "tlapm --cleanfp " + module})
+    if not m:
+        raise Infra("tlapm could not re-check %s:\n%s" % (module, out[-2000:]))
+    ev.cov["tlaps_obligations_proved"] = ev.cov.get("tlaps_obligations_proved", 0) + int(m.group(1))
+
+
+def _once_unrecorded(t):
+    """Once.tla with Bugs = {} and the output-only recorder `sched` dropped."""
+    t = re.sub(r'/\\ Note\(g, "[a-z]+"\)', "", t)
+    t = t.replace("(Locked => lock = 0)", "lock = 0").replace("(IF Locked THEN g ELSE lock)", "g").replace("(IF Locked THEN 0 ELSE lock)", "0")
+    return t.replace(" /\\ sched = <<>>", "").replace(", sched>>", ">>")
+
+
 def once_stage(w, tier, seed, ev):
     """Concurrent first use of a run-once function: all interleavings of the protocol in Once.tla, each
     forced on the real code through the gate hooks; schedules only the unlocked protocol allows must be
@@ -428,6 +467,9 @@ def once_stage(w, tier, seed, ev):
     q = tier == "quick"
     rnd = random.Random(seed)
     rc = 0
+    # any number of goroutines and uses: AtMostOnce / SameResult / MutualExclusion follow from an inductive invariant (TLAPS)
+    tlaps_stage(w, ev, "OnceProof.tla", "once-protocol-unbounded-proof",
+                sync=("Once.tla", _once_unrecorded, ["Init", "Enter", "Check", "Exec", "Store", "Next", "AtMostOnce", "SameResult"]))
     for (g, uses, cap) in ([(2, 1, 100), (2, 2, 200), (3, 1, 300)] if q else [(2, 1, 100), (2, 2, 200), (3, 1, 300), (3, 2, 3000), (4, 1, 3000)]):
         consts = {"G": str(g), "Uses": str(uses), "Bugs": "{}"}
         write_cfg(w, "O.cfg", "Spec", ["AtMostOnce", "SameResult", "MutualExclusion", "EmitSched"], constants=consts, post=None, alias=None)
